@@ -177,6 +177,11 @@ func (w *W) Case(id string, fn func(c *C)) {
 		os.Exit(4)
 	}
 	w.res.Evaluated++
+	if len(w.res.Samples) == 0 {
+		// every worker contributes at least the identity of one case it really evaluated
+		b, _ := json.Marshal(map[string]string{"case": id})
+		w.res.Samples = append(w.res.Samples, b)
+	}
 }
 
 func (c *C) Count(name string) { c.W.res.Counters[name]++ }
@@ -682,6 +687,8 @@ func writeEvidence(p *Parent, agg *Agg, nViol, nKnown int) {
 	}
 	cov["rule"] = ch.Rule
 	samples := []any{}
+	// richer samples (inputs written out) first, bare case identities last
+	sort.SliceStable(agg.Samples, func(i, j int) bool { return len(agg.Samples[i]) > len(agg.Samples[j]) })
 	for i, s := range agg.Samples {
 		if i >= 6 {
 			break
